@@ -8,11 +8,12 @@
   preserved character for character.  Writing is a fixed point.
 
   Model: Model.JsonRead (reader), Model.Value.ofJV (what handledelim builds), Model.RowPrint
-  (writer).  The pieces proved so far are the per-token facts; the composed theorem
-  (`parse (print t) = t` for every tree) is under construction in Proofs/JsonPrint.
+  (writer).  Main theorem: what the reader delivers for a printed row is exactly the tree of
+  that row (`read_of_written`), hence writing is a fixed point (`fixed_point`).
 -/
 import Model.Template
 import Proofs.IntTextJson
+import Proofs.JsonPrint
 
 namespace Jl.C02
 open Jl Jl.Value
@@ -40,5 +41,20 @@ theorem undeclared_object_kept_as_row (env : Env) (o : List (Bytes × Val)) (k :
     (h : lookup o k = none) :
     parseMember env o k x = .ok (upsert o k (.cell x .auto .none), none) := by
   simp [parseMember, h, Cells.autoCell]
+
+/-- Reading what was written gives back the written row's tree: one member per visible cell,
+    in print order at every depth, strings and keys after `sanitize` (the identity on
+    well-formed UTF-8), numbers by their literal text. -/
+theorem read_of_written (env : Env) (h : JsonPrint.FloatTextOK env.ext) (ms : Members) (bs : Bytes)
+    (hb : RowPrint.marshalRow env ms = .ok bs) :
+    Json.unmarshal bs = (JsonPrint.treeMembers env ms, true) :=
+  JsonPrint.unmarshal_marshalRow env h ms bs hb
+
+/-- Well-formed UTF-8 strings survive the writer and the reader unchanged; a second trip
+    changes nothing for any string. -/
+theorem strings_survive (s : Bytes) :
+    (Utf8.valid s = true → JsonQuote.sanitize s = s) ∧
+    JsonQuote.sanitize (JsonQuote.sanitize s) = JsonQuote.sanitize s :=
+  ⟨JsonQuote.sanitize_valid s, JsonQuote.sanitize_idem s⟩
 
 end Jl.C02
